@@ -169,7 +169,7 @@ func Populate(rr dns.RR, t uint16) {
 	case *dns.OPT:
 		x.Hdr.Name = "."
 		x.Hdr.Class = 1232
-		x.Hdr.Ttl = 0x00008000 // DO
+		x.Hdr.Ttl = 0x00038005 // extended RCODE 0, EDNS version 3, DO, Z bits 0x0005: everything Pack must leave alone is non-zero
 	case *dns.IPSECKEY:
 		x.GatewayType = dns.IPSECGatewayIPv6
 		x.GatewayAddr = net.IP{0x20, 0x01, 0x0d, 0xb8, 0, 0, 0, 0, 0, 0, 0, 0, 0, 0, 0, 0x35}
